@@ -14,8 +14,9 @@ pub fn def() -> CheckDef {
             "FiniteFunction::new", "IndexedCoproduct::{new,from_semifinite,validate}", "Operations::{new,validate,len}",
             "strict::Hypergraph::{new,validate,empty,discrete,is_discrete,tensor_operations,coequalize_vertices}",
             "strict::OpenHypergraph::{new,validate,singleton,tensor_operations,identity,twist,compose,tensor,dagger,source,target}",
+            "lax module and functors (through the C09/C10/C12/C19 jobs): lax::OpenHypergraph::{quotient,quotient_witness,to_strict,from_strict,spider,identity,singleton}, dyn_functor::define_map_arrow, var::forget::{forget,forget_monogamous}",
         ],
-        bounds_quick: "checked constructors on RAW data: arrays of length <=3 whose entries, codomains and sizes are unconstrained 64-bit values (index width 64); hypergraph/open-hypergraph constructors on valid segmented arrays with arbitrary segment counts <=2 and symbolic codomains; typed operations on W<=2, X<=1 operands",
+        bounds_quick: "lax module / functors: the small-shape subset of the C09, C10, C12 (lax) and C19 (forget) jobs; checked constructors on RAW data: arrays of length <=3 whose entries, codomains and sizes are unconstrained 64-bit values (index width 64); hypergraph/open-hypergraph constructors on valid segmented arrays with arbitrary segment counts <=2 and symbolic codomains; typed operations on W<=2, X<=1 operands",
         bounds_thorough: "arrays <=4, counts <=3, operands W<=3, X<=2",
         jobs,
         budget_s: (120, 1500),
@@ -295,6 +296,14 @@ pub fn jobs(tier: Tier, seed: u64) -> Vec<Job> {
         let gen = move || PV::List(vec![PV::OH(gen_oh(&f, "f")), PV::OH(gen_oh(&g, "g"))]);
         out.push(case_job(crate::case!(format!("types of ; (x) dagger twist {} {}", f.show(), g.show()), gen, c05_types, oracle_types, 8), cfg.clone(), per_job, false));
     }
+    // lax module, functors: results well-formed (identifiers in range) and correctly typed. These are the
+    // obligations decided by the quotient (C09), conversion (C10), functor (C12) and forget (C19) jobs, whose
+    // oracles compare every field / decide isomorphism with a well-formed reference; a subset runs here too.
+    out.extend(super::c09::jobs(tier, seed).into_iter().filter(|j| !j.name.contains(" ids[") && !j.name.contains("N3E") && !j.name.contains("N4")).map(|mut j| { j.mandatory = false; j }));
+    out.extend(super::c19::jobs(tier, seed).into_iter().filter(|j| j.name.starts_with("forget") && !j.name.contains(" ids[") && !j.name.contains("N3E")).map(|mut j| { j.mandatory = false; j }));
+    out.extend(super::lax::c10_jobs(tier, seed).into_iter().filter(|j| (j.name.starts_with("to_strict") || j.name.starts_with("round trips")) && !j.name.contains(" ids[")).take(120).map(|mut j| { j.mandatory = false; j }));
+    out.extend(super::lax::c04_lax_jobs(tier, seed).into_iter().take(60).map(|mut j| { j.mandatory = false; j }));
+    out.extend(super::c12::lax_jobs(tier).into_iter().filter(|j| !j.name.contains(" ids[")).take(150).map(|mut j| { j.mandatory = false; j }));
     let hb = match tier {
         Tier::Quick => shapes(3, 1, 2, 2, 0, 0),
         Tier::Thorough => shapes(3, 2, 3, 3, 0, 0),
